@@ -233,7 +233,7 @@ func (w *world) opLocker(a *act) {
 	write := !w.rw || c.S.PlanP(450)
 	c.Descf("actor %d: Locker(write=%v).Lock/Unlock", a.id, write)
 	l := w.m.Locker(write)
-	if c.S.PlanP(350) {
+	if c.S.PlanP(550) {
 		// one sync.Locker shared by several goroutines (each Lock is paired with one Unlock)
 		if w.shared[write] == nil {
 			w.shared[write] = l
@@ -252,6 +252,8 @@ func (w *world) opLocker(a *act) {
 	l.Lock()
 	a.inLock = false
 	w.enter(a, write, "Locker.Lock")
+	// (a goroutine never takes a second read lock while holding one: with writer
+	// preference that is a client-side deadlock, not a library defect)
 	w.hold(a)
 	w.leave(a)
 	l.Unlock()
